@@ -110,7 +110,9 @@ def f13_predicate(A, y, kappa):
     backward-stable, scale-invariant optimality certificate:
       ill_conditioned  eps*kappa^2 exceeds the backward-stable bound c*max(m,n)*eps
       abs_tolerance    tol_abs exceeds the relative gradient tolerance of some column, or is not
-                       negligible against the natural coefficient scale |y| / max|a_j|"""
+                       negligible against the natural coefficient scale |y| / max|a_j|
+      huge_scale       eps * max|A^T y| exceeds tol_abs (gradient noise above the absolute tolerance:
+                       'Maximum number of iterations reached' for some memory layouts)"""
     A = np.asarray(A, dtype=float)
     y = np.asarray(y, dtype=float)
     m, n = A.shape
@@ -119,9 +121,12 @@ def f13_predicate(A, y, kappa):
     coln = nrm(A, axis=0)
     ny = nrm(y)
     tj = T.C * T.EPS * mm * coln * ny
+    g = float(np.max(np.abs(A.T @ y))) if y.size else 0.0
     return {
         "ill_conditioned": bool(kappa * kappa >= T.C * mm),
         "abs_tolerance": bool(tol_abs > tj.min() or tol_abs >= 1e-3 * ny / max(coln.max(), 1e-300)),
+        # rounding noise eps * |A^T y| of the gradient exceeds the absolute tolerance: termination is a matter of luck
+        "huge_scale": bool(T.EPS * g > tol_abs),
     }
 
 
